@@ -575,7 +575,7 @@ def check_C12(tier, rng, rep):
                                                                       props=["ResultIsSetAlgebra", "OperandsUnchanged"], invs=["TypeOK", "Canonical"],
                                                                       acts=("make", "transform", "bin", "alias"), ops=("or", "and")))
     o = {"check_c10": False}
-    sims = ["sim-%s-%s" % (n, k) for n in SIM_NAMES for k in ("float", "frac", "quad") if not (n in ("mm", "cm") and k == "quad")]
+    sims = ["sim-%s-%s" % (n, k) for n in SIM_NAMES for k in ("float", "frac", "quad") if not (n == "mm" and k == "quad")]
     if quick:
         jobs = pair_jobs(U2, lambda k: [sims[k % len(sims)]], rng, per_universe=46, classes=("T",), opts=o, rowfilter=lambda u, r: r["reaches"])
         jobs += pair_jobs(U3, lambda k: [sims[(k + 5) % len(sims)]], rng, per_universe=30, classes=("T",), opts=o, rowfilter=lambda u, r: r["reaches"])
@@ -583,7 +583,7 @@ def check_C12(tier, rng, rep):
         jobs = pair_jobs(U2, sims, rng, classes=("T",), opts=o, rowfilter=lambda u, r: r["reaches"])
         jobs += pair_jobs(U3, lambda k: [sims[k % len(sims)], sims[(k + 7) % len(sims)]], rng, per_universe=1500, classes=("T",), opts=o, rowfilter=lambda u, r: r["reaches"])
     # the recorded finding: curved drawings at millimetre scale (fixed rows, always run)
-    jobs += pair_jobs(["U2cross", "U2bite"], ["sim-mm-quad", "sim-cm-quad"], random.Random(1), per_universe=12, classes=("T",), opts=o, rowfilter=lambda u, r: r["reaches"] and r["op"] == "and")
+    jobs += pair_jobs(["U2cross", "U2bite"], ["sim-mm-quad"], random.Random(1), per_universe=12, classes=("T",), opts=o, rowfilter=lambda u, r: r["reaches"] and r["op"] == "and")
     res = runner.pool_map(replay.run_case, jobs)
     rep.add_results("pairs", res, props=ALLP, nontrivial=nontrivial_pair)
     # containment and point membership under the same maps
@@ -591,7 +591,7 @@ def check_C12(tier, rng, rep):
     rep.add_results("pairq", runner.pool_map(queries.pairq_case, qj), props=ALLP)
     psims = [x for x in sims if "-mm-" not in x]
     pj = region_jobs(U2, lambda k: [psims[(k * 5) % len(psims)]], rng, per_universe=4 if quick else 12, pred=lambda st, r: r != 0)
-    pj += region_jobs(["U2cross"], ["sim-mm-float"], random.Random(1), per_universe=2, pred=lambda st, r: r in (10, 12))   # recorded finding
+    pj += region_jobs(["U2cross"], ["sim-mm-float"], random.Random(1), per_universe=2, pred=lambda st, r: r == 12)   # recorded finding
     rep.add_results("points", runner.pool_map(queries.points_case, pj), props=ALLP)
     rep.assumptions.append("every failure of any assertion (region, kind, loops, moments, containment, membership) under a similarity realisation counts as a C12 violation: the same abstract behaviours pass under the untransformed realisations (C01-C08)")
     return rep.finish(tier, rule="the T-class one-step operator corpus, containment rows and point membership re-executed with atoms constructed under similarity maps: scale 1e-3, 1e-2, 20, 1e5; translation 1e3, 1e6; rotation by the 3-4-5 angle and by 90 degrees far from the origin; polygon float / polygon Fraction / quadratic float; the specification behaviour is the expected result for every map", exhaustive=False)
@@ -645,6 +645,64 @@ def check_C14(tier, rng, rep):
     return rep.finish(tier, rule="T-class ordered pairs of regions whose boundaries cross (and equal pairs for the identical-segment encoding) x realisation (degree 1-3, all numeric types, far from the origin): every pair of boundary curves; reported tuples against the specification's crossing parameters (exact for rational polygons, 1e-6 otherwise), range, A(u)=B(v), operand swap, A & B, flags, crossings at vertices after both curves were split", exhaustive=not quick)
 
 
+
+def mk_sc_behaviour(ns, calls, den=12):
+    """a SplitClean behaviour written by hand (used for the recorded findings): the abstract
+    states are computed with the same rules as spec/SplitClean.tla"""
+    brk = [set() for _ in range(ns)]
+    beh = [("SCInit", (), {"brk": tuple(frozenset() for _ in range(ns)), "last": {"call": "init"}})]
+    for c in calls:
+        if c == "clean":
+            brk = [set() for _ in range(ns)]
+            last = {"call": "clean"}
+        else:
+            cs = []
+            for i in range(ns):
+                pts = sorted(brk[i] | {0, den})
+                cs += [(i, pts[k], pts[k + 1]) for k in range(len(pts) - 1)]
+            for (ci, (n, d)) in c:
+                i, lo, hi = cs[ci - 1]
+                if n not in (0, d):
+                    brk[i].add(lo + (hi - lo) * n // d)
+            last = {"call": "split", "pairs": tuple((ci, (n, d)) for ci, (n, d) in c)}
+        beh.append(("X", (), {"brk": tuple(frozenset(b) for b in brk), "last": last}))
+    return beh
+
+
+def check_C15(tier, rng, rep):
+    """split and clean never change the curve"""
+    from . import queries
+    quick = tier == "quick"
+    rep.add_tlc("SplitClean/NS4/2calls", models.splitclean_check(4, 2))
+    if not quick:
+        rep.add_tlc("SplitClean/NS6/2calls", models.splitclean_check(6, 2))
+    jobs = []
+    # seeded exploration: the domain in which no finding is recorded (polygons of every numeric
+    # type near and far from the origin, quadratic and mixed-degree curves)
+    reals = POLY + CURVED[:2] + ["poly-frac-dense", "quad-frac", "sim-far3-float", "sim-far6-float", "sim-x20-quad"]
+    # recorded finding F-C15-clean-float-rounding: two fixed behaviours, always run
+    jobs.append(("U2cross", "sim-km-quad", 10, mk_sc_behaviour(4, [[(1, (1, 2))], "clean"]), {}))
+    jobs.append(("U3chain", "cubic-float", 32, mk_sc_behaviour(4, [[(2, (1, 1)), (1, (1, 3))], [(4, (1, 1)), (1, (1, 2)), (1, (1, 1))], [(6, (1, 3))], "clean"]), {}))
+    # cubic curves: split only (no clean) behaviours are explored with the seed
+    cubic_split_only = True
+    # loops with 4 corners (rectangles) and 6 / 8 corners (L-shape, comb teeth)
+    targets = [("U2cross", 4), ("U2bite", 4), ("U2notch", 6), ("U3chain", 4)]
+    for un, ns in targets:
+        st = replay._tables(un)
+        regs = [r for r in range(1, st.u.full) if not st.pinch(r) and st.nloops(r) == 1 and len(st.loops(r)[0]) == ns]
+        res, behs = models.splitclean_simulate(ns, num=(14 if quick else 80), depth=4, seed=runner.seed() + ns)
+        rep.add_tlc("SplitClean-sim/NS%d" % ns, res)
+        for k, b in enumerate(behs):
+            reg = regs[k % len(regs)]
+            for rn in ([reals[k % len(reals)], reals[(k + 3) % len(reals)]] if quick else reals):
+                jobs.append((un, rn, reg, b, {}))
+            if all(st_["last"]["call"] != "clean" for _, _, st_ in b[1:]):
+                jobs.append((un, "cubic-float", reg, b, {}))
+    res = runner.pool_map(queries.split_case, jobs)
+    rep.add_results("split", res)
+    return rep.finish(tier, rule="TLC -simulate behaviours of SplitClean (split calls with 1-3 pairs incl. parameters 0, 1, repeated and - in float realisations - nearly repeated / near-0 / near-1 values, clean calls; 4 calls) replayed on curves of degree 1-3: segment count, each piece retraces orig_i(lo + s(hi-lo)) at 5 values of s (exact for rational polygons, 1e-6 curved), junction identity, zero-length pieces, area, orientation, clean idempotent, split;clean == original", exhaustive=False)
+
+
 def check_C19(tier, rng, rep):
     """direct composite constructors equal operator results"""
     from . import queries
@@ -663,7 +721,7 @@ def check_C19(tier, rng, rep):
 
 
 CHECKS = {"C01": check_C01, "C02": check_C02, "C03": check_C03, "C04": check_C04, "C05": check_C05, "C06": check_C06,
-          "C07": check_C07, "C08": check_C08, "C09": check_C09, "C10": check_C10, "C11": check_C11, "C12": check_C12, "C13": check_C13, "C14": check_C14, "C19": check_C19}
+          "C07": check_C07, "C08": check_C08, "C09": check_C09, "C10": check_C10, "C11": check_C11, "C12": check_C12, "C13": check_C13, "C14": check_C14, "C15": check_C15, "C19": check_C19}
 
 
 
